@@ -1,9 +1,11 @@
 mod c03;
 mod c04;
 mod c05;
+mod c06;
 mod c07;
 mod c10;
 mod c11;
+mod c12;
 mod c14;
 mod interp;
 mod craft;
@@ -37,9 +39,11 @@ fn main() {
                 "C03" => c03::generate(&mut s, tier, &mut rng),
                 "C04" => c04::generate(&mut s, tier, &mut rng),
                 "C05" => c05::generate(&mut s, tier, &mut rng),
+                "C06" => c06::generate(&mut s, tier, &mut rng),
                 "C07" => c07::generate(&mut s, tier, &mut rng),
                 "C10" => c10::generate(&mut s, tier, &mut rng),
                 "C11" => c11::generate(&mut s, tier, &mut rng),
+                "C12" => c12::generate(&mut s, tier, &mut rng),
                 "C14" => c14::generate(&mut s, tier, &mut rng),
                 _ => {
                     eprintln!("unknown property {}", prop);
